@@ -228,20 +228,22 @@ theorem pyConstraint_upper_partial {ev : Leaf → Bool} {G : Leaf → Prop} (S :
     (h : gpc m = .ok g) (hs : M.sem ev m = true) : g.allowsPlain (pyV X Y Z) = true :=
   gpc_upper S X Y Z m g hg hL hSp h hs
 
-/-- **exactness for python-only markers**: for a marker over `python_version` / `python_full_version` only whose
-DNF consists of python items (`DnfPy`: each conjunction is a python item or a conjunction of python items — the
-shape `dnf` returns unless it has already collapsed the marker), the range admits exactly the interpreters on
-which the marker holds.  Same hypotheses as the one-sided part (both directions of `SplitSound` are used). -/
+/-- **exactness for python-only markers**: for a marker over `python_version` / `python_full_version` only, the
+range admits exactly the interpreters on which the marker holds.  The shape of the DNF is C07's unconditional
+`dnf_isDnf`; what is assumed about it: it is not the empty marker when `only` did not already answer empty
+(`hne` — otherwise the code returns the universal range for an unsatisfiable marker) and it mentions python
+variables only (`hpy`).  Other hypotheses as in the one-sided part (both directions of `SplitSound` are used). -/
 theorem pyConstraint_exact_partial {ev : Leaf → Bool} {G : Leaf → Prop} (S : LeafSpec ev G) (X Y Z : Nat)
     (m : M) (g : VC) (hg : M.Good G m) (hv : ∀ n ∈ M.vars m, pyNames.contains n = true)
     (hL : ∀ l, G l → convKey l.name = pyKey → LeafClause ev X Y Z l) (hSp : SplitSound X Y Z)
-    (hshape : ∀ d, dnf defaultFuel [] m = .ok d → DnfPy d)
+    (hne : ∀ d, dnf defaultFuel [] m = .ok d → d ≠ .empty)
+    (hpy : ∀ d, dnf defaultFuel [] m = .ok d → ∀ l ∈ M.leaves d, convKey l.name = pyKey)
     (h : gpc m = .ok g) : M.sem ev m = g.allowsPlain (pyV X Y Z) :=
-  gpc_exact S X Y Z m g hg hv hL hSp hshape h
+  gpc_exact S X Y Z m g hg hv hL hSp hne hpy h
 
 /-- the hypotheses are satisfiable on a concrete object: a python item is a `LeafClause` as soon as its truth is
-the reference value of the item (here `python_version >= "3.8"` on CPython 3.8.1), and a one-leaf marker is its
-own DNF of the required shape -/
+the reference value of the item (here `python_version >= "3.8"` on CPython 3.8.1), and a one-leaf marker is a
+DNF of python items -/
 example : let s : Single := ⟨"python_version", ">=", "3.8", false, .ver (.single (.rng ⟨some (v [3, 8]), none, true, false⟩))⟩
     (∀ ev : Leaf → Bool, ev (.single s) = true → LeafClause ev 3 8 1 (.single s)) ∧
     DnfPy (.leaf (.single s)) ∧ M.vars (.leaf (.single s)) = ["python_version"] := by
